@@ -747,8 +747,8 @@ func main() {
 		before := a.runs
 		autoDeadline := start.Add(detBudget)
 		if *tier == "quick" && *autoPct < 0 {
-			// the quick tier gives the instrumented build half a minute
-			if d := time.Now().Add(30 * time.Second); d.Before(autoDeadline) {
+			// the quick tier gives the instrumented build forty seconds
+			if d := time.Now().Add(40 * time.Second); d.Before(autoDeadline) {
 				autoDeadline = d
 			}
 		}
@@ -813,7 +813,12 @@ func main() {
 		}
 		path, ok := minimise(binFor(r), *prop, *tier, *features, r, sig, *noShrink)
 		// try other seeds of the same signature
-		for k := 1; !ok && k < len(rs) && k < 6; k++ {
+		// (a run that ran into the wall-clock watchdog costs two minutes per attempt: one seed only)
+		maxSeeds := 6
+		if strings.HasSuffix(sig, "/crash:unknown") {
+			maxSeeds = 1
+		}
+		for k := 1; !ok && k < len(rs) && k < maxSeeds; k++ {
 			path, ok = minimise(binFor(rs[k]), *prop, *tier, *features, rs[k], sig, *noShrink)
 		}
 		if !ok {
@@ -1182,6 +1187,9 @@ func minimise(bin, prop, tier, features string, r Result, sig string, noShrink b
 		attempts := 1
 		if strings.Contains(sig, "/crash:") || strings.Contains(sig, "/race:") {
 			attempts = 4
+		}
+		if strings.HasSuffix(sig, "/crash:unknown") {
+			attempts = 1
 		}
 		if r.Free {
 			attempts = 4
